@@ -496,7 +496,7 @@ def check_c16(tier, deadline):
             rep.add(v["sig"], f"damaged file makes the loader end in '{v['sig'].split('/')[0]}' ({flavour} build)", {"engine": "damage", "tier": tier, "flavour": flavour, "input": v["case"]}, v["count"])
         runs.append(d)
     rep.coverage = {"evaluations": sum(d["done"] for d in runs), "distinct_nontrivial": sum(d["done"] for d in runs),
-                    "rule": "6 small valid base files (blank, points only, points+analogs+events, multi-dimensional parameters, leading zeros, channels with the minimal parameter set) from the independent encoder; damage = every truncation length; "
+                    "rule": "7 small valid base files (blank, points only, points+analogs+events, multi-dimensional parameters, 7 and 511 leading zeros, channels with the minimal parameter set) from the independent encoder; damage = every truncation length; "
                             "every byte of header + parameter section + first data block x {0,1,0x7F,0x80,0xFF}; every structural byte (name lengths, ids, next-offsets, types, dimension counts, dimensions, "
                             "description lengths, prologue, header counts/range/data start) x all 256 values; pairs of structural bytes x boundary values (2 bases quick, all thorough); under the sanitizer also EVERY pair of structural bytes of the smallest base(s) x {1,0x7F}^2 (thorough: {1,0x7F,0xFF}^2, three bases); each damaged file loaded in a forked "
                             "child (plain build: address-space cap + watchdog, timeouts re-run alone with a 10x limit; ASan build: sanitizer reports); every case is a distinct damaged input; 'primed' runs fork the children from a process that has already loaded 12 valid files "
